@@ -159,17 +159,33 @@ def run(pid, tier):
         batch.append(dict(id=i["id"], n=i["n"], g=2 if i["waste"] == 50 else 1, sf=i["sf"], crops=i["crops"], meat=i["meat"], scp=i["scp"], feed=i["feed"],
                           store=True, mode="animals", target=0, hSf=i["hSf"], hCrop=i["hCrop"], maxF=i["maxF"], maxB=i["maxB"]))
     wd = C.workdir()
-    bf = os.path.join(wd, "opt_batch.json")
-    json.dump(batch, open(bf, "w"))
-    r = C.run_tlc("MC_Optimum", cfg="MC_Optimum.cfg", workers=1, env={"INST_FILE": bf}, timeout=6000, heap="8g")
-    out.add_tlc("MC_Optimum", r)
-    reached = None
+    # one TLC process per shard of the batch (the search keeps its results in TLC registers, so each process has one worker)
+    from concurrent.futures import ThreadPoolExecutor
+    nsh = min(C.NCPU, max(1, len(batch) // 8))
+    shards = [batch[k::nsh] for k in range(nsh)]
+
+    def one(k):
+        bf = os.path.join(wd, "opt_batch_%d.json" % k)
+        json.dump(shards[k], open(bf, "w"))
+        return C.run_tlc("MC_Optimum", cfg="MC_Optimum.cfg", workers=1, env={"INST_FILE": bf}, timeout=6000, heap="4g")
+
+    with ThreadPoolExecutor(nsh) as ex:
+        rs = list(ex.map(one, range(nsh)))
+    reached = []
     best = []
-    for line in r.out.splitlines():
-        if line.startswith('"{') and "Reached" in line:
-            rep_ = json.loads(json.loads(line))
-            reached = rep_["items"]
-            best = rep_.get("best", [])
+    for k, r in enumerate(rs):
+        out.add_tlc("MC_Optimum:%d" % k, r)
+        got_report = False
+        for line in r.out.splitlines():
+            if line.startswith('"{') and "Reached" in line:
+                rep_ = json.loads(json.loads(line))
+                reached += rep_["items"]
+                best += rep_.get("best", [])
+                got_report = True
+        if not got_report:
+            reached = None
+            break
+    r = rs[-1]
     a_by_id = {i["id"]: i for i in a_insts}
     n_a = 0
     for b in best:
